@@ -28,6 +28,11 @@ import (
 
 var pool *keypool.Pool
 
+// nSmall: the identities the general generators draw from (pool indices 0..nSmall-1);
+// bigKey: index of the RSA-4096 identity, -1 when absent
+var nSmall = 8
+var bigKey = -1
+
 func envelopeSignature(b []byte) []byte {
 	var e recpb.Envelope
 	if err := proto.Unmarshal(b, &e); err != nil {
@@ -101,6 +106,8 @@ func expect(sc *scenario) (want string, signer int) {
 			return "fail", 0
 		}
 		return base, sc.Signer // no extended provider signature covers it
+	case "ep-id-earlier", "ep-dup-garbage":
+		return "fail", 0
 	case "ep-id", "ep-addr", "ep-md", "ep-swap-sigs", "ep-clear-md", "ep-clear-addrs", "ep-copy-md", "ep-copy-addrs":
 		return "fail", 0
 	case "ep-attach":
@@ -120,7 +127,13 @@ func expect(sc *scenario) (want string, signer int) {
 		}
 		return "fail", 0 // unsigned, foreign-sealed, or without the main provider
 	case "ep-drop":
-		if sc.Eps[m.Ep].Named == sc.Provider && len(sc.Eps) > 1 {
+		mains := 0
+		for _, e := range sc.Eps {
+			if e.Named == sc.Provider {
+				mains++
+			}
+		}
+		if sc.Eps[m.Ep].Named == sc.Provider && mains == 1 && len(sc.Eps) > 1 {
 			return "fail", 0 // main provider no longer listed
 		}
 		return "any", 0
@@ -130,7 +143,7 @@ func expect(sc *scenario) (want string, signer int) {
 	case "resign-other":
 		// the advertisement's envelope now comes from key k: every entry must be proper
 		// with respect to the new signer (the main provider's entry sealed by k)
-		k := m.Index % len(pool.Ids)
+		k := m.Index % nSmall
 		for _, e := range sc.Eps {
 			sealer := e.Sealer
 			if sealer < 0 {
@@ -501,10 +514,19 @@ func firstOther(a, b int) int {
 
 func scenarioSig(sc *scenario) string {
 	var eps []string
-	for _, e := range sc.Eps {
+	for i, e := range sc.Eps {
 		role := "other"
 		if e.Named == sc.Provider {
 			role = "main"
+		}
+		for _, f := range sc.Eps[:i] {
+			if f.Named == e.Named {
+				role += "(same ID as an earlier entry)"
+				break
+			}
+		}
+		if e.Named == bigKey && bigKey >= 0 {
+			role += "(rsa4096)"
 		}
 		seal := "proper"
 		if e.Sealer >= 0 && e.Sealer != properSealer(sc, e) {
@@ -535,6 +557,9 @@ func scenarioSig(sc *scenario) string {
 	}
 	if sc.OldFormat {
 		shape += "+oldformat"
+	}
+	if sc.Signer == bigKey && bigKey >= 0 {
+		shape += "+signer:rsa4096"
 	}
 	if sc.PSpell != 0 {
 		shape += "+provider:" + spellName[sc.PSpell]
@@ -695,6 +720,14 @@ func main() {
 	r := &run{c: c, failed: map[string]int{}, seen: map[string]bool{}}
 	// the pool is a function of the seed only (replays rebuild the same keys)
 	pool = keypool.New(vlib.NewRand(c.Seed).Fork("c05-pool"), 2)
+	nSmall = 8
+	// one RSA-4096 identity (index 8), used by its own family only: its signature envelopes
+	// are larger than any documented limit of the other byte fields (1138 bytes)
+	if k, err := keypool.BigRSA(vlib.NewRand(c.Seed).Fork("c05-big"), 4096, "../.build/keycache"); err == nil {
+		bigKey = pool.Add("rsa4096", k).Index
+	} else {
+		c.Note("no RSA-4096 key: " + err.Error())
+	}
 
 	if c.Replay != "" {
 		r.replay()
